@@ -91,6 +91,27 @@ void vec_ops(const double * in, double * out)
   for (int i = 0; i < r.size(); ++i) *out++ = r(i);
 }
 
+// ---- std::vector<VectorXd> whose elements have DIFFERENT run-time sizes (3, 1, 2): tangent segments are consecutive, not i*dof_i
+// in = [m (6) | m2 (6) | a (6)] ; out = [dof | rplus elements (6) | rminus (6)]
+inline void vec_mixed(const double * in, double * out)
+{
+  const int sz[3] = {3, 1, 2};
+  std::vector<Eigen::VectorXd> m, m2;
+  int off = 0;
+  for (int i = 0; i < 3; ++i) {
+    m.push_back(Eigen::Map<const Eigen::VectorXd>(in + off, sz[i]));
+    m2.push_back(Eigen::Map<const Eigen::VectorXd>(in + 6 + off, sz[i]));
+    off += sz[i];
+  }
+  const int d = static_cast<int>(smooth::dof(m));
+  Eigen::VectorXd a = Eigen::Map<const Eigen::VectorXd>(in + 12, d);
+  *out++ = d;
+  auto p = smooth::rplus(m, a);
+  for (const auto & x : p) for (int i = 0; i < x.size(); ++i) *out++ = x(i);
+  auto r = smooth::rminus(m, m2);
+  for (int i = 0; i < r.size(); ++i) *out++ = r(i);
+}
+
 // ---- variant
 using Var = std::variant<smooth::SO3d, Eigen::Vector2d, double>;
 template<int ALT>
